@@ -77,7 +77,7 @@ func checkC02(env *Env) []Violation {
 	count := map[string]int{}
 	last := map[string]*Delivery{}
 	for _, d := range dels {
-		if d.Kind != EvGauge || env.isInternal(d.Name) {
+		if d.Kind != EvGauge || env.isInternalID(d.Name, d.Tags) {
 			continue
 		}
 		k := idKey(d.Name, d.Tags)
